@@ -165,10 +165,36 @@ fn scalar_cases() -> Vec<(Case, bool)> {
     srcs.iter().map(|(s, e)| (Case{property: "C05".into(), kind: "catalogue".into(), srcs: vec![s.as_bytes().to_vec()], pred: Pred::Expect(Expect::ok(e.as_bytes().to_vec())), note: "immutability of scalars / freshness of built containers".into()}, true)).collect()
 }
 
+// The same freshness and aliasing facts over containers and strings of 63 to
+// 300 items: sizes at which a growth policy, a cache or a bulk path could
+// start to matter.
+fn large_cases(ctx: &Ctx) -> Vec<(Case, bool)> {
+    let mut out = vec![];
+    for n in [31i64, 32, 33, 63, 64, 65, 100, 127, 128, 129, 200, 300] {
+        let lit: Vec<String> = (0..n).map(|k| k.to_string()).collect();
+        for (how, init) in [("range", format!("0 .. {n}")), ("literal", format!("[{}]", lit.join(", "))), ("grown", "[]".to_string())] {
+            let grow = if how == "grown" { format!("for [_, g] in 0 .. {n} {{\n    xs += [g]\n}}\n") } else { String::new() };
+            let src = format!("fn len(l) {{\n    n := 0\n    for e in l {{\n        n += 1\n    }}\n    return n\n}}\nfn indices() {{\n    return 0 .. {n}\n}}\na := indices()\nb := indices()\nprint(a === b)\na[0] = 42\nprint(b[0])\nc := indices()\nprint(c[0])\ns := 0\nfor [_, i] in 0 .. {n} {{\n    s += i\n}}\nprint(s)\nxs := {init}\n{grow}xs += [1]\nys := xs\nprint(xs === ys)\nys += [2]\nprint(xs === ys)\nprint(len(xs))\nprint(len(ys))\nys += [3]\nys[0] = 9\nprint(len(xs))\nprint(xs[0])\nfn app(p) {{\n    p += [1000]\n    p[0] = 1000\n    return p\n}}\nzs := app(xs)\nprint(len(xs))\nprint(xs[0])\nprint(zs === xs)\nprint(len(zs))\nfn poke(p) {{\n    p[5] = 555\n}}\npoke(xs)\nprint(xs[5])\nws := xs[:]\nprint(ws === xs)\nws[1] = -1\nprint(xs[1])\nvs := [xs..]\nvs[2] = -2\nprint(xs[2])\nus := xs + []\nus[3] = -3\nprint(xs[3])\n[..ts] := xs\nts[4] = -4\nprint(xs[4])\nhs := xs[1:]\nhs[5] = -6\nprint(xs[6])\nxs[5] = 5\nprint(xs == ((0 .. {n}) + [1]))\n");
+            let want = format!("false\n0\n0\n{}\ntrue\nfalse\n{}\n{}\n{}\n0\n{}\n0\nfalse\n{}\n555\nfalse\n1\n2\n3\n4\n6\ntrue\n", n * (n - 1) / 2, n + 1, n + 2, n + 1, n + 1, n + 2);
+            ctx.label("large containers");
+            out.push((Case{property: "C05".into(), kind: "large".into(), srcs: vec![src.into_bytes()], pred: Pred::Expect(Expect::ok(want.into_bytes())), note: format!("list of {n} items ({how}): every building operation is fresh, aliases are shared")}, true));
+        }
+        let half: Vec<String> = (0..n / 2).map(|k| format!("\"k{k}\": {k}")).collect();
+        let rest: String = (n / 2..n).map(|k| format!("o[\"k{k}\"] = {k}\n")).collect();
+        let src = format!("o := {{{}}}\n{rest}p :=", half.join(", "));
+        let src = src + &format!(" {{o..}}\nprint(p === o)\nprint(p == o)\np[\"k0\"] = -1\nprint(o.k0)\nq := o\nq[\"k1\"] = -5\nprint(o.k1)\nprint(q === o)\n{{..r}} := o\nr[\"k2\"] = -6\nprint(o.k2)\nfn setk(t) {{\n    t.k3 = -7\n    t = {{}}\n    t.k4 = 0\n}}\nsetk(o)\nprint(o.k3)\nprint(o.k4)\ns := \"\"\nfor [_, i] in 0 .. {n} {{\n    s += \"é\"\n}}\nt := s\nt += \"x\"\nprint(s == t)\nprint((s + \"x\") == t)\nw := s\nw += \"\"\nprint(w == s)\n");
+        let want = "false\ntrue\n0\n-5\ntrue\n2\n-7\n4\nfalse\ntrue\ntrue\n".to_string();
+        ctx.label("large containers");
+        out.push((Case{property: "C05".into(), kind: "large".into(), srcs: vec![src.into_bytes()], pred: Pred::Expect(Expect::ok(want.into_bytes())), note: format!("object of {n} keys and string of {n} characters")}, true));
+    }
+    out
+}
+
 pub fn run(ctx: &Ctx) {
     ctx.set_rule("all histories of length <= 3 (quick; length 4 sampled; thorough: length 4 complete, 5 sampled) over 18 list operations x 3 variable pairs {alias, store in a container, element / range / nested / op-assign mutation, mutation inside a function that also rebinds its parameter, mutation inside a closure, return from a function, [s..], s + [], s[:], [..d] = s, rest parameter from spread, d = s; d += [k], store into another container, += with a list on an element} and 11 object operations likewise, every history followed by print of all three variables and all pairwise === and ==; a catalogue for scalar immutability and freshness of every building operation; random longer programs with the aliasing profile; oracle: reference heap model. Non-trivial = the history distinguishes at least one of: assignment copies / argument passing copies / + reuses its left operand (incl. += in place) / single spread aliases / full range read aliases / collect aliases / for iterates live; distinct = distinct source texts");
     ctx.replay_corpus(None);
     ctx.judge_all(scalar_cases(), Via::Cli, None);
+    ctx.judge_all(large_cases(ctx), Via::Cli, None);
     for len in 1..=2 {
         enumerate(ctx, len, false, 1);
         enumerate(ctx, len, true, 1);
@@ -189,10 +215,14 @@ pub fn run(ctx: &Ctx) {
     cfg.w_elem_assign = 12;
     cfg.w_destructure = 6;
     cfg.sloppy = 1;
+    let mut big = gen::GenCfg::big();
+    big.w_idiom = 14;
+    big.w_elem_assign = 12;
     let n = ctx.n(20_000, 800_000);
     let via = if ctx.tier == Tier::Quick { Via::Cli } else { Via::Fast };
     ctx.proptest_tapes("aliasing_random", n, 700, via, None, |t| {
-        let (case, rr, prog, _) = crate::props::c01::build_case("C05", "random", t, &cfg, 0, ctx, DiagLevel::None)?;
+        let which = if t.chance(1, 5) { ctx.label("big profile"); &big } else { &cfg };
+        let (case, rr, prog, _) = crate::props::c01::build_case("C05", "random", t, which, 0, ctx, DiagLevel::None)?;
         let nd = if t.chance(1, 3) { count_variants(ctx, &prog, &rr, &HEAP_VARIANTS) } else { 0 };
         Some((case, nd > 0))
     });
